@@ -279,6 +279,8 @@ def run(repo, chk):
     tagged = {m for m, tags in emitted.items() if tags - {"None"}}
     chk.ob("R06.6", "_standard_info:covers-tagged-meta-variables", tagged - {m for m in tagged if m.endswith("*")} <= set(info), si.where,
            f"every meta variable emitted with a tag ({sorted(tagged)}) has its annotation recorded (so tag selectors and verification can see it)")
+    from .shared import variant_selection_obligations
+    variant_selection_obligations(repo, chk, "R06.6")
     pr = repo.func("selector.Call.problems")
     fpr = facts_of(pr)
     reports = [set(c) for t_, c, n in fpr.starting("problems.append(") if isinstance(n, ast.Call)]
